@@ -37,7 +37,7 @@ M = Monitor(
              ("dreye.api.estimator", "ReceptorEstimator.in_hull")],
     deciding=["convex.in_hull", "convex.in_hull_from_A", "estimator.ReceptorEstimator.in_hull"],
     required_cells={"all": ["path=delaunay", "path=nnls-fallback", "path=affine-cone", "class=interior",
-                            "class=facet-inside", "class=facet-outside", "class=corner", "class=far",
+                            "class=facet-inside", "class=facet-outside", "class=corner", "class=far", "class=near-outside", "class=near-inside",
                             "K=matrix", "K=vector", "K=scalar", "K=none", "lb=pos", "lb=zero", "ub=inf", "ub=finite",
                             "normalized", "relative=False", "m=2", "target-rank=1"]},
     required_events=["hull.path"],
@@ -189,6 +189,29 @@ def gen_any(rng, i):
     for _ in range(3):
         T.append(T[rng.integers(5)] + rng.normal(0, 0.3, m) * scale); cls.append("random")
     T.append(c0 + Mt @ lbv - 0.05 * scale * np.abs(rng.normal(1, 0.3, m))); cls.append("below-baseline")
+    # near-boundary targets: bisect (LP oracle) between an interior capture and an outside point, then step
+    # outwards / inwards by a small multiple of the scale
+    for _ in range(3):
+        b_in = T[rng.integers(5)]
+        b_out = b_in + rng.normal(0, 1, m) * scale
+        t, _x = oracles.lp_feasible_residual(Mt, c0, lbv, ubv, b_out)
+        if t is None or t <= 1e-3 * scale:
+            continue
+        lo, hi = 0.0, 1.0
+        for _it in range(34):
+            mid = 0.5 * (lo + hi)
+            tm, _x = oracles.lp_feasible_residual(Mt, c0, lbv, ubv, b_in + mid * (b_out - b_in))
+            if tm is None:
+                break
+            if tm > 1e-12 * scale:
+                hi = mid
+            else:
+                lo = mid
+        d = (b_out - b_in) / np.linalg.norm(b_out - b_in)
+        cross = b_in + hi * (b_out - b_in)
+        step = [1e-3, 1e-4, 1e-5][rng.integers(3)] * scale
+        T.append(cross + step * d); cls.append("near-outside")
+        T.append(cross - step * d); cls.append("near-inside")
     s.update({"B": np.array(T), "X": X, "classes": cls, "mode": mode, "relative": bool(rng.integers(5) != 0)})
     return s
 
@@ -218,7 +241,7 @@ def chk_any(inp, c):
     c.require(rej.size == 0, "every capture produced by intensities strictly inside the bounds is reported in-gamut",
               mechanism=f"interior-rejected:{path}", n_rejected=int(rej.size), of=ni,
               x=inp["X"][rej[:2]], b=B[rej[:2]])
-    for j in np.flatnonzero(got)[:6]:
+    for j in np.flatnonzero(got)[:14]:
         t, _ = oracles.lp_feasible_residual(Mt, c0, lbv, ubv, B[j])
         if t is None:
             c.inconclusive("LP failed", abort=False)
